@@ -150,11 +150,27 @@ def r6(fx):
         if v < 0:
             yield table_ob(fx, 'SYMBOL_CAPACITY', f'v{v} has no Q', lv['Q'] in row, False)
     fv = fx.fn('encoder', 'find_version')
-    tr = [s for s in ast.walk(fv) if isinstance(s, ast.Try)]
-    t = single(tr, 'try in find_version')
-    okk = len(t.handlers) == 1 and ast.unparse(t.handlers[0].type) == 'KeyError'
-    yield ob('an undefined (version, level) is skipped, not substituted', okk, t, got=[ast.unparse(h.type) for h in t.handlers],
-             want=['KeyError'])
+    it0 = Interp()
+    md = modes(fx)
+    genv0 = encoder_env(fx.forest, it0)
+    f0 = FuncVal(fv, genv0, it0)
+    bad = []
+    for level, micro, want in (('H', None, 1), ('H', False, 1), ('Q', None, mv[0]), ('Q', True, mv[0]), ('M', None, mv[-2]), ('L', True, mv[-2])):
+        segs = SegmentsModel([SegModel(md['numeric'], None)], blwo=lambda version, eci, is_sa=False: 10)
+        try:
+            got = f0(segs, lv[level], False, micro)
+        except PyRaise as e:
+            got = f'raises {e.name}'
+        if got != want:
+            bad.append((level, micro, got, want))
+    try:
+        got = f0(SegmentsModel([SegModel(md['numeric'], None)], blwo=lambda version, eci, is_sa=False: 10), lv['H'], False, True)
+    except PyRaise as e:
+        got = f'raises {e.name}'
+    if got != 'raises DataOverflowError':
+        bad.append(('H', True, got, 'raises DataOverflowError'))
+    yield ob('a (version, level) pair the capacity table does not define is skipped by the version search, never substituted', not bad, fv, got=bad[:3] or 'skipped',
+             want='10 bits: H -> version 1, Q -> M4, M / L -> M2; H with micro=True -> DataOverflowError')
     ne = fx.fn('encoder', 'normalize_errorlevel')
     it = Interp()
     f = make_callable(fx.forest, 'encoder', 'normalize_errorlevel', it)
